@@ -229,6 +229,29 @@ Section C09.
     Forall (fun v => base v = None) (vecs s) -> live (heap s) = [].
   Proof. intros F R. apply no_leak. apply (reach_ok ok shape s F R). Qed.
 
+
+  (** a refused shrink_to_fit changes nothing either *)
+  Theorem C09_shrink_refused_is_identity al v :
+    alloc_ok al -> no_bad_free al -> vec_ok al v -> refused ok al v (count v) ->
+    exists al', shrink_to_fit ok false al v = Ok (al', v) /\ live al' = live al.
+  Proof.
+    intros A NB V R. pose proof (shrink_spec ok al v A NB V) as H.
+    destruct (shrink_to_fit ok false al v) as [[al' v']| |]; try contradiction.
+    destruct H as (_ & _ & _ & _ & _ & _ & _ & [(-> & L)|(_ & _ & _ & X)]); [eauto|contradiction].
+  Qed.
+
+  (** clearing one vector leaves the buffers of the others alone; clearing
+      all of them, after any history, leaves no live block *)
+  Theorem C09_clear_all_no_leak shape s :
+    Forall (fun p => 1 <= fst (fst p)) shape -> reach step (sys_init shape) s ->
+    match fst (run step s (map Clear (seq 0 (length (vecs s))))) with
+    | Done s' _ => live (heap s') = []
+    | _ => False
+    end.
+  Proof.
+    intros F R. apply (clear_all_no_leak ok). apply (reach_ok ok shape s F R).
+  Qed.
+
   (** sort and reverse permute [0, size) (sorted / reversed), touch nothing else *)
   Theorem C09_sort_reverse al v :
     vec_ok al v ->
@@ -275,4 +298,6 @@ Print Assumptions C09_destructor_once_in_order.
 Print Assumptions C09_no_callback_no_call.
 Print Assumptions C09_clear.
 Print Assumptions C09_no_leak.
+Print Assumptions C09_shrink_refused_is_identity.
+Print Assumptions C09_clear_all_no_leak.
 Print Assumptions C09_sort_reverse.
